@@ -534,6 +534,28 @@ fn exec_std_op(st: &Value, handles: &mut HashMap<u64, sfs::File>, universe: &[St
 /// `"host_returns": true` the host's software returns `Ok(())` right before
 /// every crash (a host whose program has finished, not a parked one); the
 /// bounce starts a fresh interpreter.
+/// Software state whose destructor still writes: a background flusher that is stopped and joined
+/// when the host's software is torn down (crash, or return of the program) and writes out what it
+/// has buffered through an `FsHandle`, unsynced.  cfg.drop_ops = [["spit", path, [bytes]] ..].
+struct DropWriter {
+    handle: Option<turmoil_fs::FsHandle>,
+    ops: Vec<Value>,
+}
+
+impl Drop for DropWriter {
+    fn drop(&mut self) {
+        let handle = self.handle.take().unwrap();
+        let ops = std::mem::take(&mut self.ops);
+        let t = std::thread::spawn(move || {
+            let _g = handle.enter();
+            for o in ops {
+                let _ = sfs::write(o[1].as_str().unwrap(), bytes(&o[2]));
+            }
+        });
+        let _ = t.join();
+    }
+}
+
 fn run_case_sim(case: &Value) -> Value {
     use std::cell::RefCell;
     use std::collections::VecDeque;
@@ -569,12 +591,19 @@ fn run_case_sim(case: &Value) -> Value {
         let out = outs[h].clone();
         let nf = notifies[h].clone();
         let uni = universe.clone();
+        let drop_ops: Vec<Value> = cfg["drop_ops"].as_array().cloned().unwrap_or_default();
         sim.host(format!("h{h}"), move || {
             let q = q.clone();
             let out = out.clone();
             let nf = nf.clone();
             let uni = uni.clone();
+            let drop_ops = drop_ops.clone();
             async move {
+                let _flusher = if drop_ops.is_empty() {
+                    None
+                } else {
+                    Some(DropWriter { handle: Some(turmoil_fs::FsHandle::current()), ops: drop_ops })
+                };
                 let mut handles: HashMap<u64, sfs::File> = HashMap::new();
                 loop {
                     nf.notified().await;
